@@ -126,8 +126,19 @@ func runWriter(toks []string) (string, string) {
 	gowarc.VerifSetNow(fixedNow)
 	infoCount := 0
 	var callbacks []cbEntry
-	opts := []gowarc.WarcFileWriterOption{
-		gowarc.WithMaxFileSize(max), gowarc.WithCompression(compress), gowarc.WithExpectedCompressionRatio(ratio),
+	// the compression suffix option (left at its default value) before, after or without the
+	// compression switch: the order in which options are given must not matter
+	var opts []gowarc.WarcFileWriterOption
+	switch len(toks) % 3 {
+	case 0:
+		opts = append(opts, gowarc.WithCompressedFileSuffix(".gz"), gowarc.WithCompression(compress))
+	case 1:
+		opts = append(opts, gowarc.WithCompression(compress), gowarc.WithCompressedFileSuffix(".gz"))
+	default:
+		opts = append(opts, gowarc.WithCompression(!compress), gowarc.WithCompression(compress))
+	}
+	opts = append(opts,
+		gowarc.WithMaxFileSize(max), gowarc.WithExpectedCompressionRatio(ratio),
 		gowarc.WithFileNameGenerator(&gowarc.PatternNameGenerator{Directory: out, Prefix: "v", Pattern: "%{prefix}s-%04{serial}d.%{ext}s", Extension: "warc"}),
 		gowarc.WithMaxConcurrentWriters(1), gowarc.WithFlush(flush),
 		gowarc.WithAfterFileCreationHook(func(name string, size int64, infoId string) error {
@@ -138,7 +149,7 @@ func runWriter(toks []string) (string, string) {
 			infoCount++
 			return infoID(infoCount), nil
 		})),
-	}
+	)
 	// the in-progress suffix is configurable: derived from the case so that the case format (and
 	// the model, which only sees final names) stays as it is
 	openSuffix := []string{".open", ".open", ".lock", ".incomplete", ".w"}[nrec%5]
@@ -160,6 +171,7 @@ func runWriter(toks []string) (string, string) {
 		resp gowarc.WriteResponse
 	}
 	var all []written
+	var held, heldCopy [][]gowarc.WriteResponse // what Write returned, and how it looked then
 	var obs []string
 	nops := t.nextInt()
 	for i := 0; i < nops; i++ {
@@ -180,6 +192,8 @@ func runWriter(toks []string) (string, string) {
 			batch = append(batch, recs[idx])
 		}
 		resps := w.Write(batch...)
+		held = append(held, resps)
+		heldCopy = append(heldCopy, append([]gowarc.WriteResponse(nil), resps...))
 		var ro []string
 		for x, rs := range resps {
 			e := 0
@@ -193,6 +207,15 @@ func runWriter(toks []string) (string, string) {
 	}
 	if err := w.Close(); err != nil {
 		obs = append(obs, "close:err")
+	}
+	// responses handed out earlier are the caller's: later calls must not change them
+	for i := range held {
+		for j := range held[i] {
+			a, b := held[i][j], heldCopy[i][j]
+			if a.FileName != b.FileName || a.FileOffset != b.FileOffset || a.BytesWritten != b.BytesWritten || (a.Err == nil) != (b.Err == nil) {
+				return strings.Join(obs, ";"), fmt.Sprintf("FAIL:wrong-position:the response of Write call %d (%s@%d) reads %s@%d after later calls", i, b.FileName, b.FileOffset, a.FileName, a.FileOffset)
+			}
+		}
 	}
 	// files
 	ents, _ := os.ReadDir(out)
